@@ -27,11 +27,15 @@ import (
 	"time"
 
 	"lunar/engine/actions"
+	"lunar/engine/config"
 	lunarMessages "lunar/engine/messages"
+	"lunar/engine/runner"
+	"lunar/engine/services"
 	"lunar/engine/services/remedies"
 	"lunar/engine/streams"
 	sharedConfig "lunar/shared-model/config"
 
+	spoe "github.com/negasus/haproxy-spoe-go/action"
 	"pgregory.net/rapid"
 
 	"verif/harness/internal/engine"
@@ -63,8 +67,9 @@ type step struct {
 	NewCall bool `json:"new_call,omitempty"`
 	IDEq    bool `json:"id_is_sequence_id,omitempty"`
 	Status  int  `json:"status"`
-	Park    bool `json:"stay_in_cooldown,omitempty"` // flows: leave the response parked in its cool-down while later steps run
-	Adv     int  `json:"advance_seconds,omitempty"`  // policy: clock advance before the response
+	Park    bool `json:"stay_in_cooldown,omitempty"`        // flows: leave the response parked in its cool-down while later steps run
+	Adv     int  `json:"advance_seconds,omitempty"`         // policy: clock advance before the response
+	Early   bool `json:"answered_by_the_gateway,omitempty"` // dispatcher unit: the response is an early response of a fixed_response remedy
 }
 
 type tcase struct {
@@ -664,13 +669,38 @@ func settle(clk *vclock.Clock, g0 int) error {
 	return nil
 }
 
-func runPolicy(r *ev.Recorder, c tcase) (bool, string, error) {
+func runPolicy(r *ev.Recorder, c tcase) (bool, string, error) { return runPolicyVia(r, c, false) }
+
+// runPolicyVia drives the retry remedy either directly (plugin.OnResponse) or through the dispatcher of
+// policy mode: provider responses through runner.DispatchOnResponse, responses the gateway gives by itself
+// (a fixed_response remedy on the endpoint of that status) through runner.DispatchOnRequest, whose early
+// response runs through the response-side remedies.
+func runPolicyVia(r *ev.Recorder, c tcase, dispatcher bool) (bool, string, error) {
 	g0 := runtime.NumGoroutine()
 	clk := vclock.New(time.Unix(1_700_000_000, 0))
 	plugin := remedies.NewRetryPlugin(clk)
 	cfg := &sharedConfig.RetryConfig{Attempts: c.Policy.Attempts, InitialCooldownSeconds: c.Policy.Initial, CooldownMultiplier: c.Policy.Mult}
 	for _, rg := range c.Policy.Ranges {
 		cfg.Conditions.StatusCode = append(cfg.Conditions.StatusCode, sharedConfig.Range[int]{From: rg[0], To: rg[1]})
+	}
+	var tree *config.EndpointPolicyTree
+	var pc *sharedConfig.PoliciesConfig
+	var svc *services.PoliciesServices
+	if dispatcher {
+		pc = &sharedConfig.PoliciesConfig{Global: sharedConfig.Global{Remedies: []sharedConfig.Remedy{{Name: "retry", Enabled: true, Config: sharedConfig.RemedyConfig{Retry: cfg}}}}}
+		seen := map[int]bool{}
+		for _, st := range c.Steps {
+			if !seen[st.Status] {
+				seen[st.Status] = true
+				pc.Endpoints = append(pc.Endpoints, sharedConfig.EndpointConfig{URL: fmt.Sprintf("h.com/s%d", st.Status), Method: "GET", Diagnosis: []sharedConfig.Diagnosis{},
+					Remedies: []sharedConfig.Remedy{{Name: fmt.Sprintf("fixed%d", st.Status), Enabled: true, Config: sharedConfig.RemedyConfig{FixedResponse: &sharedConfig.FixedResponseConfig{StatusCode: st.Status}}}}})
+			}
+		}
+		var err error
+		if tree, err = config.BuildEndpointPolicyTree(pc.Endpoints); err != nil {
+			return false, "", infraErr{"policy tree rejected: " + err.Error()}
+		}
+		svc = &services.PoliciesServices{Remedies: services.RemedyPlugins{RetryPlugin: plugin, FixedResponsePlugin: remedies.NewFixedResponsePlugin(clk)}}
 	}
 	j := newJudge(r, c)
 	defer func() {
@@ -700,6 +730,45 @@ func runPolicy(r *ev.Recorder, c tcase) (bool, string, error) {
 		}
 		if j.S.mayHaveExpired(seq, now) && !j.S.dead[seq] {
 			r.Class("state-lifetime-may-have-passed")
+		}
+		if dispatcher {
+			url := fmt.Sprintf("h.com/s%d", st.Status)
+			var acts spoe.Actions
+			var err error
+			hdrVar := actions.ResponseHeadersActionName
+			if st.Early {
+				r.Class("answered by the gateway itself")
+				acts, err = runner.DispatchOnRequest(lunarMessages.OnRequest{ID: id, SequenceID: seq, Method: "GET", Scheme: "https", URL: url, Path: fmt.Sprintf("/s%d", st.Status),
+					Headers: map[string]string{"host": "h.com", "early-response": "true"}}, tree, pc, svc, nil)
+			} else {
+				acts, err = runner.DispatchOnResponse(lunarMessages.OnResponse{ID: id, SequenceID: seq, Method: "GET", URL: url, Status: st.Status, Headers: map[string]string{}}, tree, &pc.Global, svc, nil)
+			}
+			if e2 := settle(clk, g0); e2 != nil {
+				return j.nontriv, "", e2
+			}
+			if err != nil {
+				return j.nontriv, fmt.Sprintf("step %d: dispatcher error: %v", i, err), nil
+			}
+			verdict := vStop
+			if !e.InCond {
+				verdict = vPass
+			}
+			for _, a := range acts {
+				if a.Name == hdrVar {
+					if s, _ := a.Value.(string); strings.Contains(s, remedies.LunarRetryAfterHeaderName+":") {
+						verdict = vRetry
+					}
+				}
+				if st.Early && a.Name == actions.StatusCodeActionName {
+					if got, _ := a.Value.(int); got != st.Status {
+						return j.nontriv, fmt.Sprintf("step %d: the gateway's own answer has status %v, configured %d", i, a.Value, st.Status), nil
+					}
+				}
+			}
+			if msg := j.observe(i, e, verdict); msg != "" {
+				return j.nontriv, msg, nil
+			}
+			continue
 		}
 		act, err := plugin.OnResponse(lunarMessages.OnResponse{ID: id, SequenceID: seq, Method: "GET", URL: "h.com/r", Status: st.Status, Headers: map[string]string{}}, cfg)
 		if e2 := settle(clk, g0); e2 != nil {
@@ -756,6 +825,26 @@ func TestFlowsRetryBound(t *testing.T) {
 		r.Class("condition:" + c.Flows.Cond)
 		nt, bad, err := runFlows(r, rec, c)
 		fatal(t, r, c, bad, err)
+		if nt {
+			r.NonTrivial(ev.JSON(c), func() any { return c })
+		}
+	})
+}
+
+// TestPolicyRetryThroughDispatcher: the same histories, every response routed through the policy-mode
+// dispatcher; half of the responses are given by the gateway itself (fixed_response remedy).
+func TestPolicyRetryThroughDispatcher(t *testing.T) {
+	r := ev.New(t, "C17")
+	rapid.Check(t, func(t *rapid.T) {
+		c := genPolicyCase().Draw(t, "case")
+		for i := range c.Steps {
+			c.Steps[i].Early = rapid.Bool().Draw(t, "early")
+		}
+		r.Case()
+		nt, bad, err := runPolicyVia(r, c, true)
+		if err != nil || bad != "" {
+			fatal(t, r, c, bad, err)
+		}
 		if nt {
 			r.NonTrivial(ev.JSON(c), func() any { return c })
 		}
